@@ -36,7 +36,11 @@ package disk
 //@   requires err == nil ==> info != nil
 //@   trace MkdirAll as MKDIR
 //@   trace CopyFile as COPY
+//@   trace os.FileInfo.IsDir as ISDIR bind isdir
 //@   trace_ensures err != nil : ^$
+// every visited node below the source root is acted on: directories are created, files copied
+//@   trace_ensures err == nil && hasprefix(path, src) && isdir : ^ISDIR MKDIR $
+//@   trace_ensures err == nil && hasprefix(path, src) && !isdir : ^ISDIR COPY $
 //@   ensures err != nil ==> result == err
 //@   at_call MkdirAll requires hasprefix(path, src) ==> $0 == cat(dest, sub(path, len(src), len(path)))
 //@   at_call CopyFile requires $0 == path && (hasprefix(path, src) ==> $1 == cat(dest, sub(path, len(src), len(path))))
